@@ -25,6 +25,9 @@ RULE = (
     "attribute equals exactly the identifier, list lookups return only it, no lookup raises (in particular no XPathError), and "
     "the same holds after Document.save + reload. Non-trivial = identifier with at least one of \" ' [ ] & < | @; distinct by "
     "(carrier, identifier)."
+    " Also: Document methods taking 'name or index of the table' with numeric-looking names (wanted table between decoys an"
+    'd a filler); titled frames nested in titled frames (name/title/description filters); API-generated annotation names in'
+    ' attached and detached containers.'
 )
 ASSUMPTIONS = [
     "identity is judged on the stored XML attribute (get_attribute_string), not on the typed .name property",
